@@ -46,6 +46,15 @@ like a catalogue graph.  Oracle unchanged: scipy log-density of the complete ass
 by the harness from its own copy of the maps (the number is the same on every route when a name is mis-resolved, so the
 differential oracle is blind here).
 
+Arity of the hyper-parameter callables (cells with an "arity" entry, helper _c01_arity.py): a callable of r hyper-parameters is
+bound step by step when its arguments are fixed in separate conditioning calls; a history can bind one callable PARTIALLY at
+most r-1 times, so graphs with r <= 2 never reach a state in which a partially bound callable is partially bound again.
+Templates with r = 3 (noise attribute / mean / the variable's parent and hyper-parameters in one callable / in the factor
+that becomes the likelihood, 5 variables), two callables of one density with overlapping arguments, r = 4 (thorough) x order
+of the callable's arguments relative to the factor order of the joint (same / reversed), each explored exactly like a
+catalogue graph (ALL ordered set partitions = every sequence of partial bindings), incl. the BayesianProblem route for the
+4-variable templates.  Oracle unchanged (scipy reference; maps are non-symmetric in their arguments).
+
 BayesianProblem route (cells with "route": "BayesianProblem"): cuqi.problem.BayesianProblem is one more way of fixing
 variables in one step or several - data given to the constructor, further data through set_data calls on the SAME live
 problem.  For every catalogue graph and every fixed set, every grouping of the fixed set into steps (ordered set partition)
@@ -63,6 +72,7 @@ from vfw import refs
 from checks import _graphs as GR
 from checks import _c01_nested as NE
 from checks import _c01_names as NA
+from checks import _c01_arity as AR
 
 PROPERTY = "C01"
 RULE = ("cells = model graph x value catalogue; inside a cell every conditioning history (ordered sequences of "
@@ -84,6 +94,10 @@ RULE = ("cells = model graph x value catalogue; inside a cell every conditioning
         "sibling attribute holding a callable / an attribute of a different density) x value catalogue: the graph is explored "
         "like a catalogue graph (all histories, call forms, factors, decomposition, reuse probe, malformed and over-specified "
         "calls) against the scipy reference with parameters computed by the harness; signatures carry naming=<closest relation>; "
+        "arity cells = template (where the r-ary callable sits) x entered attribute x order of the callable's arguments x value "
+        "catalogue: the graph is explored like a catalogue graph (all histories = every sequence of partial bindings of every "
+        "callable, call forms, factors, decomposition, reuse probe, 7 malformed forms; over-specification catalogue not repeated; "
+        "BayesianProblem route on the 4-variable templates); signatures carry arity=<r>; "
         "BayesianProblem cells = graph x value catalogue: fixed set x grouping of the fixed set into steps (ordered set partition) "
         "x {first block as constructor data, constructor without data + every block by set_data} x {keyword order of the graph, "
         "reversed} on ONE live problem; after every step the target is compared with the direct route of the same grouping "
@@ -109,6 +123,10 @@ BOUND = {
              "chain, multi-argument callable) x EVERY assignment of distinct names from {generic} + {attributes of all densities "
              "of the joint but the variable's own prior} except the all-generic one; 4-variable template Q (two hyper-parameters, "
              "two densities) with the two assignments in which both names are attributes (own/own, crossed); 75 cells; "
+             "arity: 5 cells: 4-variable templates N (y~N(m0,cov=f(a,b,c)), args in factor order), M (mean=f(a,b,c), args reversed), "
+             "O (mean=f(a,b), cov=g(b,c): overlapping arguments), X (Cauchy location=f(z,a,b), args reversed) with all ordered set "
+             "partitions + BayesianProblem route, 5-variable template L (y~N(Ax,cov=f(a,b,c)), x, a, b, c) with all ordered set "
+             "partitions; quick step modes; "
              "BayesianProblem route: the 11 graphs x every fixed set (incl. empty and complete) x groupings {graphs with <=4 "
              "variables: ALL ordered set partitions; G10: one step, every two-step partition, one variable per step in graph "
              "order and reversed} x {constructor+set_data, set_data only} x 2 keyword orders; every prefix state evaluated",
@@ -121,6 +139,9 @@ BOUND = {
                 "variable per step}, then shapes A and D on top); stage-2/3 step modes are the quick tier's; "
                 "naming: all templates incl. Q x every name assignment incl. the all-generic control x 3 catalogues (306 cells), "
                 "per step modes of the thorough tier; "
+                "arity: templates N x {Gaussian.cov, prec, sqrtcov}, M, O, X, L and F (y~N(m0,prec=f(a,b,c,d)), arity 4, 5 variables) x "
+                "{argument order same, reversed} x 3 catalogues (48 cells); thorough step modes on the 4-variable templates, quick "
+                "step modes on L and F; "
                 "BayesianProblem route: all 11 graphs x 3 catalogues x ALL ordered set partitions of every fixed set x 2 "
                 "realisations x 2 keyword orders; also inside every naming cell (all ordered partitions of the 3-4 variables)",
 }
@@ -156,6 +177,10 @@ ASSUMPTIONS = [
     "names of attributes of densities outside the joint, of non-parameter attributes (geometry, name) and of python "
     "keywords are not covered; every callable of a naming cell is a non-identity map written as source text for the "
     "library and independently as a harness function for the reference",
+    "arity cells: arity <= 3 (quick) / 4 (thorough); callables are python lambdas (no user-supplied functools.partial, no "
+    "callable objects, no default arguments); one r-ary callable per graph (template O: two binary ones sharing an argument); "
+    "hyper-parameter names are generic (the naming facet is not crossed with the arity facet); the over-specification value "
+    "catalogue is not repeated on these graphs",
     "BayesianProblem route: the state is observed at problem._target (the class has no public accessor for a target that is "
     "not a Posterior) and through the public posterior / likelihood / prior properties; set_data takes keywords only, so there "
     "is no positional passing mode on this route; set_data on a problem whose target is already a single density (Posterior / "
@@ -219,6 +244,11 @@ def cells(tier, seed):
         for k in cats:
             spec = {"template": template, "kind": kind, "names": names}
             yield {"graph": NA.graph_of(spec).gid, "cat": k, "tier": tier, "names": spec, "naming": naming}
+    # arity of the hyper-parameter callables: one cell per (template, entered attribute, argument order, catalogue)
+    for template, kind, rev in AR.catalogue(tier):
+        for k in cats:
+            spec = {"template": template, "kind": kind, "rev": rev}
+            yield {"graph": AR.graph_of(spec).gid, "cat": k, "tier": "quick" if template in AR.FIVE else tier, "arity": spec}
 
 
 # stage-1 history sets x stage-2 shapes per tier (see _c01_nested.py); 5-variable graphs always use the quick plan
@@ -1115,9 +1145,36 @@ def eval_named(cell):
     return res
 
 
+def eval_arity(cell):
+    """One graph of the arity facet (helper _c01_arity.py), explored exactly like a catalogue graph: every history
+    (hence every sequence of partial bindings of every callable), every call form, factors, decomposition, reuse probe,
+    malformed calls; the over-specification value catalogue is not repeated."""
+    res = CellResult(cell)
+    g = AR.graph_of(cell["arity"])
+    res.count("arity:%d" % g.arity)
+    res.outcomes.add("arity:%s:r=%d:args=%s" % (g.template, g.arity, "reversed" if g.rev else "same"))
+    try:
+        g.build(cell["cat"])
+    except Exception as e:  # noqa   assembling a joint is not covered by the statement
+        res.refused += 1
+        res.count("arity:assembly-refused")
+        res.outcomes.add("arity-assembly-refused:%s:%s" % (g.template, type(e).__name__))
+        res.nontrivial = False
+        return res
+    ex = Explorer(res, cell, graph=g, tag="arity=%d" % g.arity, over=False)
+    ex.explore((), set())
+    ex.differential()
+    if len(g.free) <= 4:
+        ex.explore_problem()
+    res.nontrivial = ex.reduced
+    return res
+
+
 def eval_cell(cell):
     if cell.get("nested"):
         return eval_nested(cell)
+    if cell.get("arity"):
+        return eval_arity(cell)
     if cell.get("names"):
         return eval_named(cell)
     res = CellResult(cell)
